@@ -1027,6 +1027,42 @@ def gen_quit_during_loop_start(seed, mode="loop"):
     return sc
 
 
+def gen_loop_start_callbacks(seed, mode="loop"):
+    """C15/C20: what the callbacks run by the loop start (evaluation and start of the modules still IDLE) may do: deregister a
+    persistent module (refused: the context loops), configure the context tick (its timer descriptor must not leak when the
+    loop start arms the tick again), register modules"""
+    r = random.Random(seed * 167 + 139)
+    sc = Sc(mode, "callbacks of the loop start seed=%d" % seed)
+    driven_skeleton(sc)
+    P, A, B2 = 1, 2, 3
+    sc.mod(P, "keeper", MOD_PERSIST, r.choice([0, 4]))
+    sc.mod(A, "late", 0, 3)
+    sc.mod(B2, "later", 0, r.choice([0, 3]))
+    sc.cb(P, "stop", "*", [])
+    for m in (P, A, B2):
+        sc.cb(m, "evt", "*", [])
+    what = r.choice(["dereg_persist", "dereg_persist", "tick", "tick", "both"])
+    ops = []
+    if what in ("dereg_persist", "both"):
+        ops += [("dereg", P), ("ctx_len",)]
+    if what in ("tick", "both"):
+        ops += [("ctx_tick", r.choice([1000000, 5000000, 50000000]))]
+    where = r.choice(["start", "eval"])
+    sc.cb(A, "eval", "*", ops if where == "eval" else [], ret=1)
+    sc.cb(A, "start", "*", ops if where == "start" else [])
+    sc.cb(B2, "eval", "*", [])
+    sc.cb(B2, "start", "*", ops if r.random() < 0.3 else [])
+    sc.main += [("reg", P), ("start", P), ("reg", A), ("reg", B2)]
+    if r.random() < 0.3:
+        sc.main.append(("ctx_tick", 2000000))      # a tick configured before the loop, re-configured by the callback
+    steps = [[] for _ in range(r.randrange(2, 5))]
+    if r.random() < 0.5:
+        steps[-1] = [("ctx_tick", 0)]
+    driven_finish(sc, steps, rng=r)
+    finalize_main(sc)
+    return sc
+
+
 def gen_restart_while_leaving(seed, mode="loop"):
     """C01: from the stop callback that its own deregistration runs, a module starts itself again - alone, or after the name
     it just gave up has been registered again by another module: ZOMBIE is final, the call is refused and changes nothing"""
